@@ -1,6 +1,6 @@
 (* Entry.v — executable entry points of the model, one per correspondence family:
    decode a case, run the model, encode the observable. *)
-From SLT Require Export Decode Runner Parser Unparse FsTrim Include Update Subst Framing Partition Cli Par Driver.
+From SLT Require Export Decode Runner Parser Unparse FsTrim Include Update Subst Framing Partition Cli Par Driver Serial.
 Open Scope N_scope.
 
 Definition e_event (e : event) : val :=
@@ -323,6 +323,19 @@ Definition driver_case (v : val) : val :=
       VN (exit_of st);
       vbool (accepts (mkParams (c_jobs cf) (kept_of cf st)) tr)].
 
+(* ---- family "serial": [[file codes: 0 passes, 1 fails, 4 fails with "Connection refused"]; fail_fast;
+   schedule items ["run", interrupted] | ["ctrlc"], or [] for the plain schedule (every file, no Ctrl-C)]
+   -> [reported result codes in order; exit status; files not yet run] *)
+Definition d_sfile (v : val) : sfile :=
+  let n := get_n v in if n =? 0 then FPass else if n =? 4 then FFails true else FFails false.
+Definition d_schoice (v : val) : schoice :=
+  if tag_is v "run" then SRun (get_b (arg 1 v)) else SCtrlC.
+Definition serial_case (v : val) : val :=
+  let files := map d_sfile (get_l (arg 0 v)) in
+  let sched := match get_l (arg 2 v) with [] => plain_schedule files | l => map d_schoice l end in
+  let st := srun (get_b (arg 1 v)) (sst0 files) sched in
+  VL [VL (map e_fresult (s_reported st)); VN (sexit st); VN (N.of_nat (length (s_todo st)))].
+
 (* family dispatcher used by the extracted runner and by the vm_compute cross-check *)
 Definition model_main (fam : str) (v : val) : val :=
   if str_eqb fam (lit "run") then run_case v
@@ -337,4 +350,5 @@ Definition model_main (fam : str) (v : val) : val :=
   else if str_eqb fam (lit "cli") then cli_case v
   else if str_eqb fam (lit "par") then par_case v
   else if str_eqb fam (lit "driver") then driver_case v
+  else if str_eqb fam (lit "serial") then serial_case v
   else VS (lit "unknown-family").
